@@ -52,11 +52,28 @@ async function loadModules() {
     const C = await rt("codegen-v2");
     if (B.b && typeof C.createNamedType === "function" && typeof C.overrideNamedType === "function") {
       for (let k = 0; k < 24; k++) MODS.push(bApiModule(B, C, k));
+      MODS.push(deepChainModule(B, C));
     }
   } catch (err) {
     // the b API is an optional part of the workload
   }
   return MODS;
+}
+// A long chain of named types, every link a few path segments below the one before, with parsers
+// that enter the chain at the top, in the middle and near the end: anything a print keeps per call
+// (its path, a depth counter) and does not reset when it enters a named type's body makes the
+// result depend on where the print started and on what the context holds already.
+function deepChainModule(B, C) {
+  const { b } = B;
+  const n = 48;
+  const names = Array.from({ length: n }, (_, i) => `Chain${i}`);
+  const named = names.map((nm) => C.createNamedType(nm, b.Unknown()));
+  for (let i = 0; i < n; i++) {
+    const body = i + 1 < n ? b.Object({ v: b.String(), next: b.Array(b.Object({ inner: named[i + 1], tag: b.Const(i) })) }) : b.Object({ v: b.String(), end: b.Boolean() });
+    C.overrideNamedType(names[i], body);
+  }
+  const P = { ChainTop: named[0], ChainMid: named[20], ChainLow: named[40], ChainHolder: b.Object({ top: named[0], low: b.Array(named[44]) }) };
+  return { id: "bapi_deep_chain", P, names: Object.keys(P).sort(), cache: new Map(), file: null, sf: {}, nf: {} };
 }
 function bApiModule(B, C, k) {
   const rng = new Rng(1, "bapi", k);
@@ -394,7 +411,7 @@ let TAPPED = null;
 let MIRROR = false; // byte stream reconstructed from the public API instead of tapped
 function mirrorBytes(op) {
   const enc = (tag, s) => {
-    const b = Buffer.from(new TextEncoder().encode(s));
+    const b = Buffer.from(new TE().encode(s));
     const l = Buffer.alloc(4);
     l.writeUInt32BE(b.length);
     return Buffer.concat([Buffer.from([tag]), l, b]);
@@ -455,7 +472,7 @@ function installTap(H) {
 const BOUNDS = [55, 56, 57, 63, 64, 65, 119, 120, 121, 127, 128, 129, 191, 192, 193, 255, 256, 257, 319, 320, 321, 447, 448, 449, 511, 512, 513];
 const MULTI = ["é", "漢", "😀", "\ud800", "ß", "\u0000", "￿"];
 function utf8len(s) {
-  return Buffer.byteLength(new TextEncoder().encode(s));
+  return Buffer.byteLength(new TE().encode(s));
 }
 function strOfBytes(rng, L) {
   // a string whose UTF-8 encoding has exactly L bytes
@@ -465,7 +482,7 @@ function strOfBytes(rng, L) {
   while (n < L) {
     if (multi && rng.chance(1, 4)) {
       const c = rng.pick(MULTI);
-      const l = new TextEncoder().encode(c).length;
+      const l = new TE().encode(c).length;
       if (n + l <= L) {
         s += c;
         n += l;
@@ -477,7 +494,8 @@ function strOfBytes(rng, L) {
   }
   return s;
 }
-const NUMS = [0, -0, 1, -1, 1.5, NaN, Infinity, -Infinity, 1e21, 1e-7, 123456789.125, Number.MAX_SAFE_INTEGER, Number.MIN_VALUE, 2 ** 31, -(2 ** 31), 0.1 + 0.2];
+const NUMS = [0, -0, 1, -1, 1.5, NaN, Infinity, -Infinity, 1e21, 1e-7, 123456789.125, Number.MAX_SAFE_INTEGER, Number.MIN_VALUE, 2 ** 31, -(2 ** 31), 0.1 + 0.2, 9, 10, 99, 100, 65535, 2 ** 32, 9999999999, 1e10, 10737418240, 21474836480, 1700000000000, 2 ** 53, 1e15, 123456789012];
+const TE = globalThis.TextEncoder; // kept: one batch of workers runs without the global
 
 // A long string (more than any plausible internal slice / scratch size) with two-unit characters,
 // lone surrogates and three-byte characters sitting on and around multiples of powers of two of
@@ -585,7 +603,18 @@ function sibling(ops, p) {
       break;
     case 2:
       if (o.op !== "number") return null;
-      out[i].v = o.v === 7 ? 8 : 7;
+      {
+        // a number close to the original: one more, twice as much, the same digits behind another
+        // leading digit, the other sign, a tenth
+        const v = numOf(o.v);
+        if (!Number.isFinite(v)) out[i].v = 7;
+        else {
+          const mag = v === 0 ? 1 : 10 ** Math.floor(Math.log10(Math.abs(v)));
+          const cand = [v + 1, v * 2, v + mag, -v, v / 10, v + 10 * mag, v - 1][p.salt % 7];
+          if (!Number.isFinite(cand) || Object.is(cand, v) || String(cand) === String(v)) return null;
+          out[i].v = Object.is(cand, -0) ? "-0" : cand;
+        }
+      }
       break;
     case 3:
       if (o.op !== "null") return null;
@@ -697,6 +726,7 @@ function execC13(H, run) {
       viol("write-or-digest-threw-before-digest", { sibling: true, msg: String(e && e.message) });
     }
   }
+  out.digest = digest;
   out.cls = `${stream.length % 64}/${Math.min(out.writes, 41)}`;
   out.nontrivial = stream.length > 0;
   return out;
@@ -726,9 +756,47 @@ function bigC13(H) {
 // ------------------------------------------------------------------------------------------------
 // C04 Node leg: every emitted module loads and builds a parser for every requested name
 // ------------------------------------------------------------------------------------------------
+// The working tree's own bundle-to-disk.ts (type-stripped; its generated/bundle is rebuilt from
+// bundled-code/ the way script/build.js does it): execProject with a bundler that hands back the
+// code the compiler emitted. null if the file was refactored beyond what the builder understands.
+async function realExecProject(work) {
+  try {
+    const { buildTsNode } = await import("./hostlib.mjs");
+    buildTsNode(work);
+    // (the directory lies below a package.json that says "type": "module")
+    fs.writeFileSync(path.join(work, "package.json"), '{"type":"commonjs"}');
+    const REPO = process.env.VERIF_REPO || "/repo";
+    const del = (code) => code.replace(/\/\/.*/g, "").replace(/\/\*.*\*\//g, "");
+    const dir = path.join(REPO, "packages/beff-wasm/bundled-code");
+    const bundle = Object.fromEntries(fs.readdirSync(dir).filter((f) => f.endsWith(".js") || f.endsWith("d.ts")).map((f) => [f, del(fs.readFileSync(path.join(dir, f), "utf8"))]));
+    fs.writeFileSync(path.join(work, "ts-node/generated/bundle.js"), "module.exports.default = " + JSON.stringify(bundle) + ";\n");
+    const { createRequire } = await import("node:module");
+    const require = createRequire(path.join(work, "ts-node/x.js"));
+    globalThis.__watchers = [];
+    globalThis.__wasm_calls = [];
+    const B = require("./bundle-to-disk.js");
+    return typeof B.execProject === "function" ? B.execProject : null;
+  } catch {
+    return null;
+  }
+}
+// one module wrapped by the real execProject as `flavour`; returns the text of gen/parser.js
+function wrapWithRealHost(execProject, work, it, code, flavour) {
+  const proj = path.join(work, "proj_" + flavour);
+  fs.rmSync(proj, { recursive: true, force: true });
+  fs.mkdirSync(proj, { recursive: true });
+  const settings = { stringFormats: (it.string_formats || []).map((name) => ({ name })), numberFormats: (it.number_formats || []).map((name) => ({ name })) };
+  const res = execProject({ bundle_v2: () => code }, path.join(proj, "bff.json"), { parser: "entry.ts", outputDir: "gen", module: flavour, settings }, false);
+  if (res !== "ok") throw new Error("execProject answered " + res);
+  return fs.readFileSync(path.join(proj, "gen/parser.js"), "utf8");
+}
 async function c04node(listFile) {
   const items = JSON.parse(fs.readFileSync(listFile, "utf8"));
   const results = [];
+  const realWork = path.join(path.dirname(listFile), "realhost_" + process.pid);
+  const execProject = items.some((it) => it.raw) ? await realExecProject(realWork) : null;
+  const runtimeNs = {};
+  if (execProject) for (const n of ["codegen-v2"]) runtimeNs["@beff/client/" + n] = await rt(n);
   // watchdog: a module whose load / buildParsers / validate never returns. The main thread may be
   // stuck in synchronous code, so a second thread watches a shared progress counter and the
   // process CPU time; it reports the module that was being checked and ends the process.
@@ -755,10 +823,41 @@ async function c04node(listFile) {
     Atomics.store(progress, 0, idx++);
     const r = { hash: it.hash, ok: true };
     try {
-      const m = await import(pathToFileURL(it.file).href);
+      let file = it.file;
+      let cjsP = null;
       const sf = Object.fromEntries((it.string_formats || []).map((n) => [n, () => true]));
       const nf = Object.fromEntries((it.number_formats || []).map((n) => [n, () => true]));
+      if (it.raw && execProject) {
+        // what the real host writes to disk, in both module flavours
+        const code = fs.readFileSync(it.raw, "utf8");
+        const esm = wrapWithRealHost(execProject, realWork, it, code, "esm");
+        file = it.file.replace(/\.mjs$/, ".real.mjs");
+        fs.writeFileSync(file, esm);
+        r.real_host = true;
+        const cjs = wrapWithRealHost(execProject, realWork, it, code, "cjs");
+        try {
+          const module = { exports: {} };
+          const req = (spec) => {
+            if (runtimeNs[spec]) return runtimeNs[spec];
+            throw new Error("Cannot find module '" + spec + "'");
+          };
+          new Function("require", "exports", "module", cjs)(req, module.exports, module);
+          cjsP = module.exports.default.buildParsers({ stringFormats: sf, numberFormats: nf });
+        } catch (e) {
+          r.ok = false;
+          r.class = "module-does-not-load";
+          r.detail = { flavour: "cjs (written by the working tree's bundle-to-disk.ts)", message: String(e && e.message).slice(0, 300) };
+          fs.writeSync(1, JSON.stringify(r) + "\n");
+          continue;
+        }
+      }
+      const m = await import(pathToFileURL(file).href);
       const P = m.default.buildParsers({ stringFormats: sf, numberFormats: nf });
+      if (cjsP && Object.keys(cjsP).sort().join("\u0000") !== Object.keys(P).sort().join("\u0000")) {
+        r.ok = false;
+        r.class = "module-misses-requested-parser";
+        r.detail = { flavour: "cjs", missing: Object.keys(P).filter((k) => !(k in cjsP)), have: Object.keys(cjsP).slice(0, 20) };
+      }
       const have = new Set(Object.keys(P));
       if (it.expected_keys) {
         const missing = it.expected_keys.filter((k) => !have.has(k));
@@ -1037,6 +1136,9 @@ function dieWithParent() {
 
 async function workerMain(prop) {
   dieWithParent();
+  // an engine that lacks some globals (old Hermes / React Native have no TextEncoder): they are
+  // taken away before the runtime is loaded
+  for (const g of (process.env.JSIM_DELETE_GLOBALS || "").split(",").filter(Boolean)) delete globalThis[g];
   try {
     let ctxs = {};
     if (prop === "C13S") {
@@ -1208,6 +1310,16 @@ async function main() {
       console.log(`replay of ${a1} did not reproduce class '${run.violation_class}'`);
       process.exit(0);
     }
+    if (run.deleted_globals) {
+      const r1 = await alone(SELF, [prop], run, 30000);
+      const r2 = await alone(SELF, [prop], run, 30000, { JSIM_DELETE_GLOBALS: run.deleted_globals.join(",") });
+      if (r1.result && r2.result && r1.result.digest !== r2.result.digest) {
+        console.log(`VIOLATION property=${prop} replay=${a1} class=digest-depends-on-the-globals-of-the-engine`);
+        process.exit(1);
+      }
+      console.log(`replay of ${a1} did not reproduce class '${run.violation_class}'${r2.fatal ? " (the runtime does not load without " + run.deleted_globals.join(",") + ")" : ""}`);
+      process.exit(0);
+    }
     if (run.violation_class === "call-never-returns") {
       const r = await alone(SELF, [prop], run, 30000);
       if (r.stalled) {
@@ -1236,6 +1348,8 @@ async function main() {
   const only = process.env.JSIM_ONLY ? process.env.JSIM_ONLY.split(",").map(Number) : null;
   const indices = only ?? Array.from({ length: runs }, (_, i) => i);
   const stalled = [];
+  const ENV_BATCH = prop === "C13" && !only ? (tier === "quick" ? 10000 : 200000) : 0;
+  const baseC13 = new Map();
   let poolInfo = { stalls: 0, executed: indices.length };
   try {
     poolInfo = await pool(SELF, [prop], indices, workers, (index, r) => {
@@ -1263,6 +1377,7 @@ async function main() {
         agg.classes.add(r.cls);
         if (r.nontrivial) agg.nontrivial.add(r.cls);
       }
+      if (prop === "C13" && index < ENV_BATCH) baseC13.set(index, r.digest);
       if (index < 3 && r.run) agg.samples.push({ run_index: index, ...r.run, observed: { prints: r.prints, throws: r.throws, writes: r.writes, bytes: r.bytes, definitions: r.defs, violations: r.violations.map((v) => v.class) } });
       for (const v of r.violations) {
         if (r.syntheticNameCollision && ["export-depends-on-call-history", "definition-differs-from-fresh-single-print", "dangling-ref"].includes(v.class)) {
@@ -1296,6 +1411,25 @@ async function main() {
     agg.n++;
     agg.viol.set("call-never-returns", { index: -2, v: { property: prop, class: "call-never-returns", detail: { run_index: confirmedStall.index, limit_s: 30 } }, run: confirmedStall.run });
     if (poolInfo.executed < indices.length) console.log(`NOTE: batch cut short after ${poolInfo.stalls} stalled runs (${indices.length - poolInfo.executed} run indices not executed)`);
+  }
+  // C13: the same write sequences in worker processes of an engine without TextEncoder (if the
+  // runtime loads there at all): same sequence, same digest
+  let noTextEncoder = null;
+  if (ENV_BATCH && !confirmedStall) {
+    noTextEncoder = { sequences: 0, runtime_loads_without_TextEncoder: true };
+    try {
+      await pool(SELF, [prop], Array.from({ length: Math.min(ENV_BATCH, runs) }, (_, i) => i), workers, (index, r) => {
+        noTextEncoder.sequences++;
+        for (const v of r.violations) if (!agg.viol.has(v.class)) agg.viol.set(v.class, { index, v, run: r.run });
+        const want = baseC13.get(index);
+        if (want !== undefined && r.digest !== want && !agg.viol.has("digest-depends-on-the-globals-of-the-engine")) {
+          agg.viol.set("digest-depends-on-the-globals-of-the-engine", { index: -4, v: { property: "C13", class: "digest-depends-on-the-globals-of-the-engine", detail: { run_index: index, with_TextEncoder: want, without: r.digest } }, run: { ...genC13(index), deleted_globals: ["TextEncoder"] } });
+        }
+      }, () => {}, 20000, { JSIM_DELETE_GLOBALS: "TextEncoder" });
+    } catch (e) {
+      // the unchanged runtime needs the global at import time: nothing to compare then
+      noTextEncoder = { sequences: 0, runtime_loads_without_TextEncoder: false, reason: String(e && e.message).split("\n")[0].slice(0, 200) };
+    }
   }
   let big = null;
   if (prop === "C13" && tier !== "quick") {
@@ -1450,6 +1584,7 @@ async function main() {
             sibling_sequences_compared_for_injectivity: agg.siblings || 0,
             run_over_2_pow_29_bytes: big ? { ok: big.ok, bytes: big.bytes } : "thorough tier only",
             hash256_stability_leg: stability,
+            engine_without_TextEncoder: noTextEncoder,
             faults_fired: { operations_after_digest: "see samples; every run ends with 0-2 of them" },
             components: { real: ["packages/beff-client/src/hash.ts type-stripped from the working tree"], stub: ["type stripper (swc based)"], oracle: "node:crypto createHash('sha256')" },
           },
